@@ -456,6 +456,52 @@ class SOpaque(Sym):
         return f"SOpaque<{self.kind}>({self.e})"
 
 
+class SCases(Sym):
+    """A value that is one of several structurally different alternatives -- e.g. a size tuple of unknown
+    arity: (), (c,) or (c, r) -- each guarded by a z3 condition; the guards are mutually exclusive and
+    jointly exhaustive.  `State.force` picks the alternative (forking over the feasible ones); equality
+    with another value is a formula (never forks); nothing else is defined on it."""
+
+    __slots__ = ("cases",)
+
+    def __init__(self, cases):
+        self.cases = [(c if not isinstance(c, SBool) else c.e, v) for c, v in cases]
+
+    def __eq__(self, o):
+        if isinstance(o, SCases):
+            return either(*[both(mk_bool(z3.And(c1, c2)), struct_eq(v1, v2)) for c1, v1 in self.cases for c2, v2 in o.cases])
+        return either(*[both(mk_bool(c), struct_eq(v, o)) for c, v in self.cases])
+
+    def __ne__(self, o):
+        return neg(self.__eq__(o))
+
+    __hash__ = None
+
+    def __repr__(self):
+        return f"SCases({self.cases!r})"
+
+
+def struct_eq(a, b):
+    """Equality as a formula (never forks), component-wise on tuples of statically known arity."""
+    if isinstance(a, SCases):
+        return a.__eq__(b)
+    if isinstance(b, SCases):
+        return b.__eq__(a)
+    if isinstance(a, tuple) or isinstance(b, tuple):
+        if not (isinstance(a, tuple) and isinstance(b, tuple)) or len(a) != len(b):
+            return False
+        return both(*[struct_eq(x, y) for x, y in zip(a, b)])
+    if isinstance(a, SOpt) or isinstance(b, SOpt):
+        return opt_eq(a, b)
+    return eq(a, b)
+
+
+def _as_cases(ce, x):
+    if isinstance(x, SCases):
+        return [(z3.And(ce, c), v) for c, v in x.cases]
+    return [(ce, x)]
+
+
 # ---------------------------------------------------------------------------------------------
 # dual-use helpers (symbolic or concrete)
 
@@ -565,6 +611,16 @@ class SIte(Sym):
 def _ite_struct(ce, a, b):
     if a is b:
         return a
+    if isinstance(a, SCases) or isinstance(b, SCases):
+        return SCases(_as_cases(ce, a) + _as_cases(z3.Not(ce), b))
+    if type(a).__name__ == "SObj" and type(b).__name__ == "SObj" and a.cls is b.cls and set(a.fields) == set(b.fields):
+        # two objects of one class with the same fields (canvases stored in a list): field-wise conditional
+        parts = {k: _ite_struct(ce, a.fields[k], b.fields[k]) for k in a.fields}
+        if any(p is _NOITE for p in parts.values()):
+            return _NOITE
+        o = type(a)(a.cls, parts, a.base_list)
+        o.shape = a.shape
+        return o
     if isinstance(a, (bool, SBool)) and isinstance(b, (bool, SBool)):
         return mk_bool(z3.If(ce, _zb(a), _zb(b)))
     if is_num(a) and is_num(b) and not isinstance(a, (bool, SBool)) and not isinstance(b, (bool, SBool)):
